@@ -5,12 +5,20 @@
   `conservation` search of tools/props/C08.py.  The normalizer's variation-selector round
   (`handle_variation_selector_cluster`, model `Norm.vsLoop`, tied to the crate by C09's `norm-run` stream)
   keeps every record: `C08_vs_round_keeps`, `C08_vs_round_chars`.
+  The shapers' own compose / decompose callbacks of the normalizer (Hebrew presentation forms, Indic / Khmer / USE
+  split-matra rules), enumerated on the compiled crate, answer only with canonically equivalent characters (or
+  the documented Khmer split-vowel decomposition): `C08_hebrew_compose_canonical`, `C08_shaper_callbacks_canonical`.
 -/
 import RbModel.Buf
 import RbModel.Lemmas.Mem
 import RbModel.Props.C16
 import RbModel.Norm
 import RbModel.Lemmas.NormVS
+import RbModel.Spec.CanonEquiv
+import RbModel.Lemmas.CanonRef
+import RbModel.Gen.NormRef
+import RbModel.Gen.HebrewCompose
+import RbModel.Gen.ShaperCallbacks
 
 namespace RbModel.Buf
 open RbModel.Mem
@@ -204,3 +212,73 @@ theorem C08_vs_round_chars (U : UData) (F : Font) (K : Consts) (n : Nat) (out in
   vsLoop_chars U F K n out inp flags hn
 
 end RbModel.Norm
+
+
+/-! ## Shaper-specific compositions and decompositions are canonically equivalent
+
+The recomposition round of the normalizer asks the shaper's `compose` callback (decomposition: `decompose`); what it
+answers replaces the two characters in the buffer.  `Gen/HebrewCompose.lean` / `Gen/ShaperCallbacks.lean` hold the
+answers of the callbacks of the *compiled crate* (set up the way `_hb_ot_shape_normalize` sets them up), enumerated
+over every pair of characters of the scripts' blocks; `Spec/CanonEquiv.lean` is canonical equivalence written from
+the standard; `Gen/NormRef.lean` is the reference data (`C09_tables_match_ref` ties it to the crate's tables);
+`Lemmas/CanonRef.lean` has `equivRef` (equivalence by the reference data) and its fast evaluation `equivK`. -/
+namespace RbModel.Props.C08
+open RbModel.Gen RbModel.Spec.CanonEquiv RbModel.Lemmas.CanonRef
+
+set_option maxRecDepth 100000
+
+/-- **Hebrew presentation forms.**  `ot_shaper_hebrew.rs::compose`, asked for every pair `(a, b)` of
+    U+0590–05FF ∪ U+FB1D–FB4F (26 569 pairs) with `plan.has_gpos_mark = false` (a cmap-only font) and `= true`:
+    every answer `ab` is canonically equivalent to `<a, b>` — the full canonical decomposition of `ab` equals that
+    of `a` followed by that of `b` up to canonical reordering.  (False before the repair of YOD + PATAH → U+FB1F,
+    and for any exchange of two rows of the dagesh table.) -/
+theorem C08_hebrew_compose_canonical :
+    HebrewCompose.domain = [(0x0590, 0x05FF), (0xFB1D, 0xFB4F)] ∧
+    (∀ e ∈ HebrewCompose.entries, equivRef e = true) ∧
+    (∀ e ∈ HebrewCompose.entriesGpos, equivRef e = true) := by
+  have h1 : (HebrewCompose.entries.all equivK) = true := by decide +kernel
+  have h2 : (HebrewCompose.entriesGpos.all equivK) = true := by decide +kernel
+  rw [equivK_eq] at h1 h2
+  exact ⟨by decide, fun e he => List.all_eq_true.mp h1 e he, fun e he => List.all_eq_true.mp h2 e he⟩
+
+-- the theorem is not vacuous: PE + DAGESH ↦ U+FB44 is offered, and the reference decides
+example : (0x05E4, 0x05BC, 0xFB44) ∈ HebrewCompose.entries := by decide
+example : equivK (0x05E4, 0x05BC, 0xFB44) = true := by decide +kernel
+-- SHIN WITH SHIN DOT + DAGESH ↦ U+FB2C needs the canonical reordering (U+05BC has class 21, U+05C1 class 24)
+example : equivK (0xFB2A, 0x05BC, 0xFB2C) = true := by decide +kernel
+-- what the two slips of this table looked like: AYIN + DAGESH ↦ U+FB43 (= FINAL PE + DAGESH), YOD + PATAH ↦ U+FB1F
+example : equivK (0x05E2, 0x05BC, 0xFB43) = false := by decide +kernel
+example : equivK (0x05D9, 0x05B7, 0xFB1F) = false := by decide +kernel
+
+/-- **Every shaper with callbacks of its own** (the list is asked from the crate: compose — Hebrew, Indic, Khmer,
+    USE; decompose — Indic, Khmer), each callback asked over every pair / every character of the blocks of its
+    scripts (2.8 million pairs in all, both values of `has_gpos_mark`):
+    (1) every composition offered is canonically equivalent to its two arguments (this includes the Indic
+    exception U+09AF U+09BC ↦ U+09DF, a composition exclusion);
+    (2) every decomposition offered is canonically equivalent to the character, or is the documented Khmer
+    split-vowel decomposition `ab ↦ <U+17C1, ab>`;
+    (3) outside those blocks (every pair of a canonical mapping of the crate's table; every scalar value) no
+    callback answers anything but what `unicode::compose` / `unicode::decompose` answer — it may decline. -/
+theorem C08_shaper_callbacks_canonical :
+    (∀ l ∈ ShaperCallbacks.composeAll, ∀ e ∈ l, equivRef e = true) ∧
+    (∀ l ∈ ShaperCallbacks.decomposeAll, ∀ e ∈ l,
+      (equivRef (e.2.1, e.2.2, e.1) || khmerSplit e) = true) ∧
+    ShaperCallbacks.composeOutside = [] ∧ ShaperCallbacks.decomposeOutside = [] := by
+  have h1 : (ShaperCallbacks.composeAll.all fun l => l.all equivK) = true := by decide +kernel
+  have h2 : (ShaperCallbacks.decomposeAll.all fun l =>
+      l.all fun e => equivK (e.2.1, e.2.2, e.1) || khmerSplit e) = true := by decide +kernel
+  rw [equivK_eq] at h1 h2
+  have h3 : ShaperCallbacks.composeOutside = [] := rfl
+  have h4 : ShaperCallbacks.decomposeOutside = [] := rfl
+  refine ⟨all_of_all _ _ h1, ?_, h3, h4⟩
+  intro l hl e he
+  exact List.all_eq_true.mp (List.all_eq_true.mp h2 l hl) e he
+
+-- not vacuous: the callbacks are there and offer compositions / split vowels
+example : ShaperCallbacks.ownCompose = ["hebrew", "indic", "khmer", "use"] ∧
+    ShaperCallbacks.ownDecompose = ["indic", "khmer"] := by decide
+example : (0x09AF, 0x09BC, 0x09DF) ∈ ShaperCallbacks.compose_indic := by decide
+example : (0x17BE, 0x17C1, 0x17BE) ∈ ShaperCallbacks.decompose_khmer := by decide
+example : khmerSplit (0x17BE, 0x17C1, 0x17BE) = true := by decide
+
+end RbModel.Props.C08
